@@ -3,7 +3,7 @@ from .. import core
 from ..engines import repro
 
 PROP = "C16"
-BUDGET = {"quick": 700, "thorough": 20000}
+BUDGET = {"quick": 1000, "thorough": 20000}
 ALARM_S = 900
 RULE = ("histories seed(s); op; [other consumers of the global generator]; seed(s); op; seed(s'); op on the SAME object, "
         "op in {solve_stochast exact/tau raw, solve_stochast gridded, simulate_param, solve_determ with iterations}, random "
